@@ -17,6 +17,7 @@ package tcell
 import (
 	"os"
 	"reflect"
+	"unicode"
 
 	runewidth "github.com/mattn/go-runewidth"
 )
@@ -67,7 +68,7 @@ func (cb *CellBuffer) SetContent(x int, y int,
 		c.currComb = append([]rune{}, combc...)
 
 		if c.currMain != mainc {
-			c.width = runewidth.RuneWidth(mainc)
+			c.width = runeWidth(mainc)
 		}
 		c.currMain = mainc
 		if style.fg == ColorNone {
@@ -235,7 +236,23 @@ func (cb *CellBuffer) Fill(r rune, style Style) {
 		}
 		c.currStyle = cs
 		c.width = 1
+		if runeWidth(r) == 0 {
+			// non-printing: shown as a blank, like SetContent does
+			c.width = 0
+		}
 	}
+}
+
+// runeWidth is the display width of a primary rune.  Format characters
+// (bidirectional controls, zero-width joiners, invisible operators, tags)
+// that go-runewidth reports as one column wide are non-printing: a cell
+// must never hand them to the terminal, so they get width 0 and are shown
+// as a blank like other controls.
+func runeWidth(r rune) int {
+	if unicode.Is(unicode.Cf, r) && !unicode.Is(unicode.Prepended_Concatenation_Mark, r) {
+		return 0
+	}
+	return runewidth.RuneWidth(r)
 }
 
 var runeConfig *runewidth.Condition
